@@ -13,6 +13,7 @@ from . import absobj as _abs
 from . import libtorch as _lt
 from . import libimg as _li
 from .expr import to_int as _e_to_int
+from .expr import to_real as _e_to_real
 
 REPO = os.environ.get("KAPPADATA_REPO", "/repo")
 
@@ -362,6 +363,22 @@ class Engine(ExprMixin, StmtMixin):
                 if sq.kind is not None and z3.is_int_value(sq.kind) and sq.kind.as_long() == 2:
                     return [(st, VTuple([r]))]          # numpy: tuple of index arrays
                 return [(st, r)]
+            if attr in ("max", "min", "sum") and not args and not kwargs and isinstance(sq.etype, (TInt, TReal)):
+                isint = isinstance(sq.etype, TInt)
+                conv = _e_to_int if isint else _e_to_real
+                m = z3.Int(uid("seq_" + attr)) if isint else z3.Real(uid("seq_" + attr))
+                k, j = z3.Int(uid("k")), z3.Int(uid("j"))
+                if attr == "sum":
+                    # only what is needed: a sum of non-negative terms dominates each term
+                    st.assume(z3.Implies(z3.ForAll([k], z3.Implies(z3.And(0 <= k, k < sq.len), conv(sq.elem(k)) >= 0)),
+                                         z3.ForAll([j], z3.Implies(z3.And(0 <= j, j < sq.len), m >= conv(sq.elem(j))))))
+                    st.assume(z3.Implies(sq.len == 0, m == 0))
+                else:
+                    eng.safety(st, f"seq.{attr}:non-empty", sq.len > 0, None, f"{attr}() of an empty tensor raises")
+                    w = z3.Int(uid("witness"))
+                    st.assume(0 <= w, w < sq.len, m == conv(sq.elem(w)),
+                              z3.ForAll([k], z3.Implies(z3.And(0 <= k, k < sq.len), conv(sq.elem(k)) <= m if attr == "max" else conv(sq.elem(k)) >= m)))
+                return [(st, VInt(m) if isint else VReal(m))]
             if attr in ("long", "int", "contiguous"):
                 return [(st, sq)]
             if attr == "squeeze":
